@@ -219,25 +219,46 @@ def spec_c06_tuples(ctx):
     ctx.ob('tuple-impls', 'tuple arities 1..26 each implemented once', sorted(arities) == list(range(1, 27)), str(sorted(arities)))
 
 
+LEAF_USES = {}      # leaf function name -> summaries of other leaf impls it relied on
+
+
 def seq_of_ids(ctx, key, what, fn, type_args):
-    """reads()/writes() returning exactly [ResourceId::new::<X>() for X in type_args]."""
-    o = straight(ctx, key, fn, what)
-    if o is None:
+    """reads()/writes() returning exactly [ResourceId::new::<X>() for X in type_args], possibly by forwarding
+    to another leaf impl of the library (summarised; the use graph is checked for cycles)."""
+    outs = M.Exec(fn, stats=ctx.stats, leaf_summaries=True).run()
+    ctx.functions.append(fn.name)
+    rets = returns(outs)
+    ok = len(rets) == 1 and len(outs) == 1
+    ctx.ob(key, '%s: single straight-line path' % what, ok, '' if ok else str([show(o)[:120] for o in outs][:3]))
+    if not ok:
         return
+    o = rets[0]
+    used = [n[len('summary:'):] for n in o.st.notes if n.startswith('summary:')]
+    LEAF_USES[what] = used
     cs = calls(o)
-    cs_ids = [e for e in cs if re.search(r'ResourceId::new::<', e.callee)]
-    other = [e.callee for e in cs if e not in cs_ids and not re.search(r'Box::<\[.*ResourceId; \d+\]>::new_uninit$', e.callee)]
-    got = [re.search(r'ResourceId::new::<(.*)>$', e.callee).group(1) for e in cs_ids]
-    ok_shape = got == list(type_args) and not other
-    ctx.ob(key, '%s: builds ids exactly for %s' % (what, list(type_args)), ok_shape, '' if ok_shape else 'ids %s, other calls %s' % (got, other))
+    other = [e.callee for e in cs if not re.search(r'ResourceId::new::<|Box::<\[.*ResourceId; \d+\]>::new_uninit$|Vec::<(world::)?ResourceId>::', e.callee) and e.callee not in used]
+    ctx.ob(key, '%s: only builds resource ids (or forwards to another leaf declaration of the library)' % what, not other, str(other))
     if not isinstance(o.value, SeqV):
-        ctx.ob(key, '%s: returns a vector of those ids' % what, False, repr(o.value))
+        ctx.ob(key, '%s: returns a vector of ids' % what, False, repr(o.value))
         return
     exp = z3.Empty(SeqR)
-    for e in cs_ids:
-        exp = z3.Concat(exp, z3.Unit(f_rid(e.result)))
-    ok = ctx.valid(what, o.value.seq == exp) and ok_shape
+    for t in type_args:
+        exp = z3.Concat(exp, z3.Unit(f_rid(M.id_of(t))))
+    ok = ctx.valid(what, o.value.seq == exp)
     ctx.ob(key, '%s: result == %s' % (what, ['Id<%s>' % t for t in type_args]), ok, '' if ok else str(o.value))
+
+
+def leaf_uses_acyclic(ctx):
+    def target(callee):
+        m = re.match(r"^<(Option<)?(?:data::|world::|shred::)*(Read|Write)<.*>(>)? as (?:system::)?SystemData<'_>>::(reads|writes)$", callee)
+        return ('Option<%s>' % m.group(2) if m.group(1) else m.group(2)) + '::' + m.group(4) if m else None
+    g = {k: [target(c) for c in v if target(c)] for k, v in LEAF_USES.items()}
+    def cyc(n, seen):
+        if n in seen:
+            return True
+        return any(cyc(x, seen | {n}) for x in g.get(n, []))
+    bad = [n for n in g if cyc(n, frozenset())]
+    ctx.ob('leaf-summaries', 'leaf declarations that forward to each other do so without a cycle', not bad, str(bad))
 
 
 def chain_spec(ctx, key, what, fn, pats, ret_is_last=True, first_arg=None):
@@ -276,6 +297,7 @@ def spec_c06_leaves(ctx):
         seq_of_ids(ctx, key, nm + '::writes', ctx.one(hdr, 'writes'), wr)
         chain_spec(ctx, key, nm + '::fetch', ctx.one(hdr, 'fetch'), fetch_pats, True, 1)
         chain_spec(ctx, key, nm + '::setup', ctx.one(hdr, 'setup'), setup_pats, False, 1 if setup_pats else None)
+    leaf_uses_acyclic(ctx)
     # From<Fetch> for Read / From<FetchMut> for Write keep the guard
     for hdr, nm in [(r"From<Fetch<'a, T>> for Read<'a, T, F>", 'Read::from'), (r"From<FetchMut<'a, T>> for Write<'a, T, F>", 'Write::from')]:
         o = straight(ctx, 'leaf-from', ctx.one(hdr, 'from'), nm)
@@ -1747,3 +1769,96 @@ def spec_insert(ctx):
 for _p in ('C01', 'C04', 'C05', 'C19'):
     SPECS.setdefault(_p, [])
     SPECS[_p] = SPECS[_p] + [('commit part of insert', spec_insert)]
+
+
+# ================================================================================================
+# feature configurations (C05, C19): the crate built without `parallel`
+
+PLACEMENT_FNS = ['insertion_target', 'insertion_target::{closure#0}', 'insertion_target::{closure#1}', 'insertion_target::{closure#2}', 'find_conflict', 'find_conflict::{closure#0}',
+                 'remove_ids', 'remove_ids::{closure#0}', 'improves_balance', 'insert', 'add_stage', 'add_group', 'add_barrier', 'build', 'fetch_all_reads', 'fetch_all_writes']
+
+
+def _body_text(f):
+    out = []
+    for bb in sorted(f.blocks, key=lambda b: int(b[2:])):
+        out.append(bb + ('(cleanup)' if bb in f.cleanup else ''))
+        out += f.blocks[bb]
+    t = '\n'.join(out)
+    t = re.sub(r'src/[\w/]+\.rs:\d+:\d+: \d+:\d+', 'LOC', t)
+    t = re.sub(r'\b(?:[a-z_][a-z0-9_]*::)+', '', t)     # rustc trims module paths depending on what is in scope
+    return t
+
+
+def spec_feature_configs(ctx):
+    """The placement code is the same code with and without the `parallel` feature; without it dispatch is dispatch_seq."""
+    key = 'feature-configs'
+    a = {f.short: f for f in ctx.fns('default') if re.search(SB, f.impl_header) or f.name.startswith('check_intersection')}
+    b = {f.short: f for f in ctx.fns('nopar') if re.search(SB, f.impl_header) or f.name.startswith('check_intersection')}
+    names = PLACEMENT_FNS + [n for n in a if n.startswith('check_intersection')]
+    missing = [n for n in names if n not in a or n not in b]
+    ctx.ob(key, 'every placement function exists in both feature configurations', not missing, str(missing))
+    diff = [n for n in names if n in a and n in b and _body_text(a[n]) != _body_text(b[n])]
+    for n in names:
+        if n in a:
+            ctx.functions.append(a[n].name + ' (default vs no-default-features)')
+    ctx.ob(key, 'the MIR bodies of the placement functions are identical with and without the `parallel` feature (same plan in both configurations)', not diff, str(diff))
+    S = r'^src/dispatch/send_dispatcher.rs: impl SendDispatcher<'
+    fs = [f for f in ctx.fns('nopar') if f.short == 'dispatch' and re.search(S, f.impl_header)]
+    if len(fs) == 1:
+        outs = M.Exec(fs[0], stats=ctx.stats).run()
+        rets = returns(outs)
+        ok = len(rets) == 1 and len(outs) == 1 and [bool(re.search(r'^SendDispatcher::<.*>::dispatch_seq$', e.callee)) for e in sig(rets[0])] == [True]
+        ctx.ob(key, 'without `parallel`, dispatch is exactly dispatch_seq', ok, str([e.callee for e in sig(rets[0])]) if rets else '')
+    else:
+        ctx.ob(key, 'SendDispatcher::dispatch found in the no-default-features dump', False)
+
+
+SPECS['C19'] = SPECS['C19'] + [('feature configurations', spec_feature_configs)]
+SPECS['C05'] = SPECS.get('C05', []) + [('feature configurations', spec_feature_configs)]
+
+
+# ================================================================================================
+# C03: the stage search starts at the barrier index
+
+def spec_insertion_target(ctx):
+    key = 'planner-scan-range'
+    f = ctx.one(SB, 'insertion_target')
+    i_bar = fidx('src/dispatch/stage.rs', 'StagesBuilder', 'barrier')
+    i_st = fidx('src/dispatch/stage.rs', 'StagesBuilder', 'stages')
+    outs = ctx.run(f)
+    rets = returns(outs)
+    ctx.ob(key, 'insertion_target: only normal paths', len(rets) >= 1 and all(o.kind in ('return', 'bound') for o in outs), str(sorted(set((o.kind, o.detail[:30]) for o in outs))))
+    bar = M.f_fld(M.f_deref(P(1)), i_bar)
+    ok_all, why = True, ''
+    for o in rets:
+        cs = sig(o)
+        scans = [e for e in cs if re.search(r'^<std::ops::Range<usize> as Iterator>::map::<\(usize, (stage::)?Conflict\)', e.callee)]
+        if len(scans) != 1:
+            ok_all, why = False, 'expected exactly one scan over a range of stages, found %d' % len(scans)
+            break
+        rng = scans[0].argvals[0]
+        ln = [e for e in cs if re.search(r'^Vec::<Stage<.*>>::len$', e.callee) and cs.index(e) < cs.index(scans[0])]
+        if not (isinstance(rng, Agg) and len(rng.fields) == 2):
+            ok_all, why = False, 'scan range is not a literal start..end: %r' % (rng,)
+            break
+        if not ctx.valid('scan start', to_term(rng.fields[0]) == bar):
+            ok_all, why = False, 'the stage search does not start at the barrier index: start = %s' % to_term(rng.fields[0])
+            break
+        if not (ln and any(ctx.valid('scan end', to_term(rng.fields[1]) == e.result) and ctx.valid('len arg', e.args[0] == self_field(i_st)) for e in ln)):
+            ok_all, why = False, 'the stage search does not end at the number of stages: end = %s' % to_term(rng.fields[1])
+            break
+        # anything that happens before the scan may only cross dependencies off for stages in front of the barrier
+        pre = cs[:cs.index(scans[0])]
+        rm = [e for e in pre if re.search(r'StagesBuilder::<.*>::remove_ids$', e.callee)]
+        rngs = [e for e in pre if re.search(r'<std::ops::Range<usize> as IntoIterator>::into_iter$', e.callee)]
+        for e in rngs:
+            r = e.argvals[0]
+            if not (isinstance(r, Agg) and isinstance(r.fields[0], Cst) and r.fields[0].text.startswith('0_usize') and ctx.valid('pre end', to_term(r.fields[1]) == bar)):
+                ok_all, why = False, 'a pre-pass iterates something other than the stages 0..barrier'
+        other = [e.callee for e in pre if re.search(r'StagesBuilder::<', e.callee) and e not in rm]
+        if other:
+            ok_all, why = False, 'unexpected planner call before the scan: %s' % other
+    ctx.ob(key, 'insertion_target: the stage search runs over barrier..number_of_stages (a pre-pass may only cross off dependencies of stages 0..barrier)', ok_all, why)
+
+
+SPECS['C03'] = SPECS['C03'] + [('stage search range', spec_insertion_target)]
